@@ -4,9 +4,11 @@ import framework as fw
 import engine_runner as er
 import execcheck as xc
 import oracles as orc
-from gen import SchemaGen, DocGen, print_sdl, base
+from gen import SchemaGen, DocGen, base, is_nn, print_sdl, base
 from model import Model
 from pyval import enc, dec, same, strings_in, stf_table
+
+SHARED_PAYLOAD = [False]
 
 async def build(sg, renv, sources, log):
     """engine with one @Subscription source per Subscription field, replaying `sources[field]`"""
@@ -15,9 +17,15 @@ async def build(sg, renv, sources, log):
     def mk(field):
         async def source(parent, args, ctx, info):
             log.append(("start", field, enc(dict(args))))
+            shared = {}
             for ev in sources[field]:
                 log.append(("event", field))
-                yield dec(ev)
+                v = dec(ev)
+                if SHARED_PAYLOAD[0] and isinstance(v, dict):
+                    # one payload object re-used for every event and changed in place between events (a legitimate way to
+                    # write a source): response k must be computed from the state at the time event k was produced
+                    shared.clear(); shared.update(v); v = shared
+                yield v
             log.append(("end", field))
         return source
     name = f"case{next(er._counter)}"
@@ -103,6 +111,13 @@ async def explore(tier, seed, m):
             if r < 0.08: opn = "Nope"; kind = "unknown-operation"
             elif r < 0.16: q = q.replace("{", "{ nope_field ", 1); kind = "validation-error"
             elif r < 0.2: q = q[: len(q) // 2] + " {"; kind = "syntax-error"
+            elif r < 0.27 and len(sg.subscription["fields"]) >= 2:
+                # two root fields hidden behind a root-level fragment with the SAME NAME valid documents use
+                def sel(x): return x["name"] + (" { __typename }" if base(x["type"]) not in sg.leaf_names else "")
+                fa, fb = sg.subscription["fields"][0], sg.subscription["fields"][1]
+                if not any(is_nn(a["type"]) and not a.get("default") for x in (fa, fb) for a in x["args"]):
+                    q = "subscription S { ...RootF }\nfragment RootF on Subscription { " + sel(fa) + " " + sel(fb) + " }"; variables = None; kind = "validation-error"
+            SHARED_PAYLOAD[0] = rng.random() < 0.4
             log.clear(); b.calls.clear()
             resps = []
             init = None
